@@ -143,7 +143,7 @@ def B_tris():       # 3x3 triangle grid, 9 vertices, shifted
 
 
 def L_poly():       # 4 vertices, with a branch
-    return polyline([(0, 0, 1), (1, 0, 1), (1, 2, 1), (3, 2, 0)], [(0, 1), (1, 2), (1, 3)])
+    return polyline([(0., 0., 1.), (1., 0., 1.), (1., 2., 1.), (3., 2., 0.)], [(0, 1), (1, 2), (1, 3)])
 
 
 def V_tets():       # 8 vertices, 6 tets
@@ -378,9 +378,21 @@ def producers(seed, thorough):
     add('subdiv_triangulate_mixed', subdiv(MIXED, 'triangulate', False), source='MIXED', op='triangulate')
     add('subdiv_fan_mixed', subdiv(MIXED, 'split_face_as_fan', False, 2), source='MIXED', op='split_face_as_fan', face=2)
     add('subdiv_loop1_tris', subdiv(B_tris, 'loop_subdivision', True, 1), source='B_tris', op='loop_subdivision', n=1)
-    add('subdiv_loop2_quads', subdiv(A_quads, 'loop_subdivision', True, 2), source='A_quads', op='loop_subdivision', n=2)
+
+    def tri_then(src, op, *args):
+        # triangulate in a first block (in place), subdivide in a second one
+        def build():
+            s = src()
+            with SurfaceSubdivision(s) as sub0:
+                sub0.triangulate()
+            s = sub0.mesh
+            with SurfaceSubdivision(s) as sub:
+                getattr(sub, op)(*args)
+            return dict(mesh=sub.mesh, sources=[('subdivided mesh', s)])
+        return build
+    add('subdiv_loop2_quads', tri_then(A_quads, 'loop_subdivision', 2), source='A_quads, triangulated first', op='loop_subdivision', n=2)
     add('subdiv_3quads_tris', subdiv(B_tris, 'subdivide_triangles_3quads', True), source='B_tris', op='subdivide_triangles_3quads')
-    add('subdiv_tri6_mixed', subdiv(MIXED, 'subdivide_triangles_6', True, 1), source='MIXED', op='subdivide_triangles_6', repeat=1)
+    add('subdiv_tri6_mixed', tri_then(MIXED, 'subdivide_triangles_6', 1), source='MIXED, triangulated first', op='subdivide_triangles_6', repeat=1)
 
     def ear():
         return dict(mesh=split_double_boundary_edges_triangles(EAR()), sources=[])
@@ -416,7 +428,11 @@ def producers(seed, thorough):
     add('boundary_of_volume_tetgrid', bnd_volume(V_tets), source='V_tets')
     add('boundary_of_volume_one_tet', bnd_volume(lambda: raw_mesh(tet_pts, cells=[(0, 1, 2, 3)])), source='one tetrahedron')
     # the boundary_mesh property is a cached view of its volume: only the transform clauses are checked on it
-    add('volume_boundary_mesh', lambda: dict(mesh=V_tets().boundary_mesh, sources=[]), source='V_tets', via='VolumeMesh.boundary_mesh')
+    def bmesh():
+        s = V_tets()
+        s.enable_boundary_connectivity()
+        return dict(mesh=s.boundary_mesh, sources=[])
+    add('volume_boundary_mesh', bmesh, source='V_tets', via='enable_boundary_connectivity(); VolumeMesh.boundary_mesh')
 
     # ---- other producers that build a mesh from another mesh
     def reorder():
@@ -442,7 +458,8 @@ def producers(seed, thorough):
         add('torus_8x5', lambda: dict(mesh=P.torus(8, 5, 2., 0.5), sources=[]), major_segments=8, minor_segments=5)
         add('ring_7_open_cover3', lambda: dict(mesh=P.ring(7, 1.0, True, 3), sources=[]), N=7, defect=1.0, open=True, n_cover=3)
         add('subdiv_loop2_tris', subdiv(B_tris, 'loop_subdivision', True, 2), source='B_tris', op='loop_subdivision', n=2)
-        add('subdiv_tri6x2_tris', subdiv(B_tris, 'subdivide_triangles_6', True, 2), source='B_tris', op='subdivide_triangles_6', repeat=2)
+        add('subdiv_3quads_then_loop', tri_then(lambda: subdiv(B_tris, 'subdivide_triangles_3quads', True)()['mesh'], 'loop_subdivision', 1),
+            source='B_tris -> subdivide_triangles_3quads -> triangulate', op='loop_subdivision', n=1)
         add('boundary_of_volume_tetgrid2', bnd_volume(lambda: tetgrid(2)), source='tetgrid(2)')
     return fam
 
@@ -537,6 +554,11 @@ def check_translate(build):
     e = transform_case(build, 'translate([0.5,0.5,-1] as ndarray)', lambda m: T.translate(m, np.array([0.5, 0.5, -1.])), lambda P: P + np.array([0.5, 0.5, -1.]), reverse=False)
     if e:
         return e
+    return None
+
+
+def check_translate_by_own_vertex(build):
+    # "all transform parameters": the translation vector is one of the mesh's own stored vertices
     for k in (0, 1):
         e = transform_case(build, 'translate(mesh, mesh.vertices[%d])' % k, lambda m: T.translate(m, m.vertices[min(k, len(m.vertices) - 1)]),
                            lambda P: P + P[min(k, len(P) - 1)], reverse=False)
@@ -615,7 +637,16 @@ def check_scale(build):
 
 
 def check_scale_xyz(build):
-    for f, orig in (((2., 0.5, 3.), (1., -2., 0.5)), ((1., 1., -2.), (0., 0., 0.)), ((0.25, 4., 1.), 'vertex0'), ((2., 3., 0.5), None)):
+    return _scale_xyz(build, (((2., 0.5, 3.), (1., -2., 0.5)), ((1., 1., -2.), (0., 0., 0.)), ((0.25, 4., 1.), 'vertex0')))
+
+
+def check_scale_xyz_default_origin(build):
+    # docstring: "orig: Fixed point of the scaling. If not provided, it is set at (0,0,0)"
+    return _scale_xyz(build, (((2., 3., 0.5), None),))
+
+
+def _scale_xyz(build, variants):
+    for f, orig in variants:
         fa = np.array(f)
         held = None if orig is None or orig == 'vertex0' else fvec(*orig)
 
@@ -965,8 +996,6 @@ def check_copy(build):
 
 
 def check_copy_connectivity(build, name):
-    if name not in ('unit_grid_3x5', 'load_mesh_polyline', 'tetrahedron_vol'):
-        return None
     pr = build()
     m = pr['mesh']
     if not hasattr(m, 'connectivity'):
@@ -982,7 +1011,49 @@ def check_copy_connectivity(build, name):
     return None
 
 
-CHECKS = ['structure', 'copy', 'copy_connectivity', 'translate', 'rotate', 'scale', 'scale_xyz', 'normalize', 'translate_to_origin', 'flatten', 'edit']
+CHECKS = ['structure', 'copy', 'copy_connectivity', 'translate', 'translate_by_own_vertex', 'rotate', 'scale', 'scale_xyz', 'scale_xyz_default_origin',
+          'normalize', 'translate_to_origin', 'flatten', 'edit']
+CC_PRODUCERS = ('unit_grid_3x5', 'load_mesh_polyline', 'load_mesh_volume')     # one per mesh type with a connectivity object
+PARAM_PRODUCERS = ('torus_5x3', 'load_obj_surface')                             # transform-parameter clauses that do not depend on the producer (vertex 0 is not the origin)
+
+
+def applicable(name, check):
+    if check == 'structure':
+        return name.startswith('merge_')
+    if check == 'edit':
+        return name.startswith('merge_') or name.startswith('copy_')
+    if check == 'copy_connectivity':
+        return name in CC_PRODUCERS
+    if check in ('translate_by_own_vertex', 'scale_xyz_default_origin'):
+        return name in PARAM_PRODUCERS
+    return True
+
+
+def where(e):
+    import traceback
+    tb = traceback.extract_tb(e.__traceback__)
+    lib = [f for f in tb if '/mouette/' in f.filename]
+    return (' at %s:%d' % (lib[-1].filename.split('/mouette/')[-1], lib[-1].lineno)) if lib else ' (raised in the oracle at line %d)' % tb[-1].lineno
+
+
+def run_producer(name, build, checks):
+    """-> (failed checks, error text, number of checks run)"""
+    try:
+        pr = build()
+        if pr['mesh'] is None:
+            return ['build'], 'build: the producer returned None', 1
+    except Exception as e:
+        return ['build'], 'build: producing the mesh raised %s: %s%s' % (type(e).__name__, e, where(e)), 1
+    failed, errs, k = [], [], 0
+    for check in checks:
+        if not applicable(name, check):
+            continue
+        k += 1
+        err = run_check(name, build, check)
+        if err:
+            failed.append(check)
+            errs.append('%s: %s' % (check, err if len(err) < 420 else err[:420] + '...'))
+    return failed, ' || '.join(errs), k
 
 
 def run_check(name, build, check):
@@ -996,13 +1067,10 @@ def run_check(name, build, check):
         if check == 'edit':
             return check_edit(build, name)
         return {'translate': check_translate, 'rotate': check_rotate, 'scale': check_scale, 'scale_xyz': check_scale_xyz, 'normalize': check_normalize,
-                'translate_to_origin': check_translate_to_origin, 'flatten': check_flatten}[check](build)
+                'translate_to_origin': check_translate_to_origin, 'flatten': check_flatten, 'translate_by_own_vertex': check_translate_by_own_vertex,
+                'scale_xyz_default_origin': check_scale_xyz_default_origin}[check](build)
     except Exception as e:
-        import traceback
-        tb = traceback.extract_tb(e.__traceback__)
-        lib = [f for f in tb if '/mouette/' in f.filename]
-        where = (' at %s:%d' % (lib[-1].filename.split('/mouette/')[-1], lib[-1].lineno)) if lib else ' (raised in the oracle at line %d)' % tb[-1].lineno
-        return 'raised %s: %s%s' % (type(e).__name__, e, where)
+        return 'raised %s: %s%s' % (type(e).__name__, e, where(e))
 
 
 # ----------------------------------------------------------------------------------------------------------------------
@@ -1167,11 +1235,28 @@ def seq_drop_mesh(base, ops, mid):
     return new_base, new_ops
 
 
+def seq_bypass_copy(base, ops, k):
+    """remove the copy op number k and let every later reference to the copy point at the copied mesh instead"""
+    cid = len(base) + len([o for o in ops[:k] if o[0] in ('copy', 'merge')])
+    src = ops[k][1]
+    f = lambda r: src if r == cid else (r - 1 if r > cid else r)
+    out = [list(o) for o in ops[:k]]
+    for op in ops[k + 1:]:
+        out.append(['merge', [f(r) for r in op[1]]] if op[0] == 'merge' else [op[0], f(op[1])] + list(op[2:]))
+    return out
+
+
 def seq_shrink(base, ops):
     base, ops = list(base), [list(o) for o in ops]
     changed = True
     while changed:
         changed = False
+        for k in range(len(ops) - 1, -1, -1):
+            if ops[k][0] == 'copy':
+                cand = seq_bypass_copy(base, ops, k)
+                if seq_valid(base, cand) and run_sequence(base, cand):
+                    ops, changed = cand, True
+                    break
         # drop non-creating ops
         for k in range(len(ops) - 1, -1, -1):
             if ops[k][0] not in ('copy', 'merge'):
@@ -1214,7 +1299,7 @@ def random_sequence(rnd):
     base = [rnd.choice(list(BASES)) for _ in range(rnd.randint(1, 3))]
     n = len(base)
     ops = []
-    for _ in range(rnd.randint(2, 7)):
+    for _ in range(rnd.randint(2, 8)):
         r = rnd.random()
         if r < 0.2:
             ops.append(['copy', rnd.randrange(n), rnd.randint(0, 1)])
@@ -1272,7 +1357,9 @@ def main():
                 fam = {name: (params, build) for name, params, build in producers(int(case.get('seed', seed)), True)}
                 if case.get('producer') not in fam:
                     respond(failing=None, cases=0, note='unknown producer %r' % case.get('producer'))
-                err = run_check(case['producer'], fam[case['producer']][1], case['check'])
+                failed, err, k = run_producer(case['producer'], fam[case['producer']][1], CHECKS)
+                case = dict(case)
+                case['failed'] = failed           # the set of failing clauses is part of the descriptor
             out = None
             if err:
                 out = dict(strip(case))
@@ -1296,23 +1383,17 @@ def main():
             case['error'] = err
             respond(failing=case, cases=n, known_hit=known_hit)
 
+        checks = CHECKS if not focus else [c for c in CHECKS if c == focus or c.startswith(focus + '_') or (focus == 'structure' and c == 'edit')]
         for name, params, build in producers(seed, thorough):
-            for check in CHECKS:
-                if focus and check != focus and not (focus == 'structure' and check == 'edit'):
-                    continue
-                if check == 'structure' and not name.startswith('merge_'):
-                    continue
-                if check == 'edit' and not (name.startswith('merge_') or name.startswith('copy_')):
-                    continue
-                if check == 'copy_connectivity' and name not in ('unit_grid_3x5', 'load_mesh_polyline', 'tetrahedron_vol'):
-                    continue
-                n += 1
-                err = run_check(name, build, check)
-                if err:
-                    report({'kind': 'producer', 'producer': name, 'params': params, 'check': check, 'seed': seed}, err)
+            failed, err, k = run_producer(name, build, checks)
+            n += k
+            if failed:
+                # one case per producer; the list of failing clauses belongs to the descriptor, so a NEW failing clause on a
+                # producer that is already known is a new case
+                report({'kind': 'producer', 'producer': name, 'params': params, 'seed': seed, 'failed': failed}, err)
         # sequences
         rnd = random.Random(seed * 7919 + 13)
-        count = 150 if thorough else 40
+        count = 400 if thorough else 60
         for _ in range(count):
             if budget.over():
                 break
